@@ -180,6 +180,9 @@ func vcUniversePol() *vcUniverse {
 			{Name: "t1o1in", Make: vcPol{Tier: "t1", Order: vcF(1), Sel: "a == '1'", Types: []string{"ingress"}, In: []model.Rule{{Action: "allow"}}}.mk()},
 			{Name: "t2nilEg", Make: vcPol{Tier: "t2", Sel: "has(b)", Types: []string{"egress"}, Out: []model.Rule{{Action: "allow", DstSelector: "a == '2'"}}}.mk()},
 			{Name: "t1o2both", Make: vcPol{Tier: "t1", Order: vcF(2), Sel: "all()", In: []model.Rule{{Action: "allow", Protocol: vcProto("tcp"), DstPorts: []numorstring.Port{vcNamedPort("http")}}}}.mk()},
+			// same selector as t1o1in, other order and direction: a metadata-only change, which can
+			// happen while the policy matches nothing
+			{Name: "t1o2eg", Make: vcPol{Tier: "t1", Order: vcF(2), Sel: "a == '1'", Types: []string{"egress"}, Out: []model.Rule{{Action: "allow"}}}.mk()},
 			{Name: "X", Invalid: true, Make: vcPol{Tier: "t1", Order: vcF(1), Sel: "all()", In: []model.Rule{vcBadRule}}.mk()},
 		}},
 		{Name: "pB", Key: vcPolKey("pB"), Vars: []vcVariant{
@@ -358,25 +361,36 @@ func vcUniverseDup() *vcUniverse {
 
 // Base states: the explored histories start after this prefix (which is replayed on every instance but
 // is not part of the depth bound). "full"/"alt" are populated, in-sync and flushed (teardown, change
-// and re-parenting direction); "unsynced" is mid-resync: data delivered, no in-sync, nothing flushed.
+// and re-parenting direction); "flap" is populated and flushed followed by changes that were reverted
+// again before any flush (coalesced churn); "dangling" (pol only) is populated with references to
+// objects that have not arrived; "unsynced" is mid-resync: data delivered, no in-sync,
+// nothing flushed.
 var vcBases = map[string]map[string][]string{
 	"pol": {
 		"empty":    nil,
 		"full":     {"t1=o10deny", "t2=o20deny", "p1lab=b1", "p1rules=allow", "pA=t1o1in", "pB=t1o1both", "w1=A", "he1=A", "insync", "flush"},
 		"alt":      {"t1=nilDeny", "t2=o10pass", "p1lab=b1", "p1rules=sel", "pA=t2nilEg", "pB=t1nilB1", "w1=B", "insync", "flush"},
 		"unsynced": {"w1=A", "pA=t1o2both", "pB=t1o1both", "t1=o30pass", "p1rules=sel"},
+		// populated + flushed, then a change that was reverted again before any flush (coalesced churn):
+		// w1 started and stopped matching pA
+		"flap": {"t1=o10deny", "p1rules=allow", "pA=t1o1in", "pB=t1o1both", "w1=B", "insync", "flush", "w1=A", "w1=B"},
+		// populated with dangling references: the endpoint's profile has neither labels nor rules yet,
+		// pA names a tier that does not exist; both policies select on a label only the profile can give
+		"dangling": {"t1=o10deny", "pA=t2nilEg", "pB=t1nilB1", "w1=A", "insync", "flush"},
 	},
 	"set": {
 		"empty":    nil,
 		"full":     {"t1=o10", "p1rules=sel", "pA=srcA2", "pB=dstA2", "w1=A", "r1=A", "n1=A", "insync", "flush"},
 		"alt":      {"t1=o10", "p1rules=port", "pA=mixed", "w1=B", "r1=A", "n1=B", "insync", "flush"},
 		"unsynced": {"w1=A", "r1=A", "pA=mixed", "p1rules=sel", "n1=A"},
+		"flap":     {"t1=o10", "p1rules=sel", "pA=onlyA1", "pB=dstA2", "w1=B", "r1=A", "insync", "flush", "w1=A", "w1=B", "r1=B", "r1=A"},
 	},
 	"route": {
 		"empty":    nil,
 		"full":     {"h1=net24", "h2=near", "h2tun=t0", "pool=vxlan", "blk=h2", "w1=in", "insync", "flush"},
 		"alt":      {"h1=net24", "h2=far", "h2tun=t1", "h2mac=m", "pool=vxlanX", "blk=h2borrowH1", "w1=tun", "insync", "flush"},
 		"unsynced": {"w1=in", "blk=h2", "h2tun=t0", "h2=near", "pool=vxlan"},
+		"flap":     {"h1=net24", "h2=near", "h2tun=t0", "pool=vxlan", "blk=h2", "w1=in", "insync", "flush", "blk=h1", "blk=h2", "h2tun=t1", "h2tun=t0", "-w1", "w1=in"},
 	},
 	"dup": {
 		"empty": nil,
@@ -384,7 +398,7 @@ var vcBases = map[string]map[string][]string{
 	},
 }
 
-var vcBaseOrder = []string{"empty", "full", "alt", "unsynced"}
+var vcBaseOrder = []string{"empty", "full", "alt", "flap", "dangling", "unsynced"}
 
 func vcUniverses() map[string]*vcUniverse {
 	return map[string]*vcUniverse{"pol": vcUniversePol(), "set": vcUniverseSet(), "route": vcUniverseRoute(), "dup": vcUniverseDup()}
@@ -397,7 +411,7 @@ func vcPropUniverses(prop *vcProp) []string {
 	return []string{"pol", "set", "route"}
 }
 
-// vcPlan lists the explorations of this run. Quick: graph mode depth 3 from the empty, full and alt
+// vcPlan lists the explorations of this run. Quick: graph mode depth 3 from the empty, full, alt and flap
 // base states of every universe (+ depth 4 from empty for the property's QuickDeep universes).
 // Thorough: additionally the unsynced base, tree mode (no merging) depth 3 from empty, graph mode
 // depth 4 from every base and depth 5 from the empty and full bases (deadline permitting).
@@ -412,7 +426,7 @@ func vcPlan(c *vk.Ctx, prop *vcProp) []vcPlanItem {
 		plan = append(plan, vcPlanItem{U: us[un], Base: base, Pre: pre, Depth: depth, Tree: tree})
 	}
 	for _, un := range vcPropUniverses(prop) {
-		for _, base := range []string{"empty", "full", "alt"} {
+		for _, base := range []string{"empty", "full", "alt", "flap", "dangling"} {
 			add(un, base, 3, false)
 		}
 	}
